@@ -78,6 +78,9 @@ func c11Program(pg *gen.PG, i int) (string, []*canon.Node) {
   (trace! @fut%[1]s)
   (trace! (count big%[1]s))
   (trace! (let (x %[2]d) ((fn (x) (let (x (+ x 1)) x)) x)))
+  (defmacro two-temps%[1]s (fn (a b) (let (x (gensym) y (gensym)) (list 'let (list x a y b) (list 'list x y)))))
+  (def temps-loop%[1]s (fn (n bad) (if (< n 1) bad (temps-loop%[1]s (- n 1) (if (= (two-temps%[1]s 1 %[2]d) (list 1 %[2]d)) bad (+ bad 1))))))
+  (trace! (list :gensym-temporaries-collided (temps-loop%[1]s 60 0)))
 `, sfx, tag)
 	var sb strings.Builder
 	sb.WriteString("(do\n")
@@ -232,6 +235,41 @@ func c11Batch(c *fw.Ctx, r *rand.Rand, id string, T int) {
 				}
 			}(k)
 		}
+		// a global macro, defined before anything starts, is re-defined (same definition) over and over by one thread
+		// while others use it: every use must see a macro (a definition is visible entirely or not at all)
+		sharedDef := "(defmacro shared-unless (fn (c x) (list 'if c nil x)))"
+		if o := hx.EvalText(context.Background(), sharedDef, e); o.Err != nil || o.Panicked {
+			panic(fmt.Sprint("shared macro: ", o.Err, o.PanicMsg))
+		}
+		defAst, _ := lisp.READ(sharedDef, nil, e)
+		useAst, _ := lisp.READ("(shared-unless false 42)", nil, e)
+		var macroUses int64
+		for k := 0; k < 3; k++ {
+			rwg.Add(1)
+			go func(k int) {
+				defer rwg.Done()
+				for {
+					select {
+					case <-stopReaders:
+						return
+					default:
+					}
+					if k == 0 {
+						hx.Eval(context.Background(), defAst, e)
+						continue
+					}
+					o := hx.Eval(context.Background(), useAst, e)
+					atomic.AddInt64(&macroUses, 1)
+					if o.Panicked || o.Err != nil || o.Val != 42 {
+						select {
+						case torn <- fmt.Sprintf("(shared-unless false 42), a macro re-defined concurrently with an identical definition, gave %s (err %v %s): the definition was observed half-made", canon.Render(canon.FromGo(o.Val)), o.Err, o.PanicMsg):
+						default:
+						}
+						return
+					}
+				}
+			}(k)
+		}
 		close(start)
 		done := make(chan struct{})
 		go func() { wg.Wait(); close(done) }()
@@ -250,6 +288,7 @@ func c11Batch(c *fw.Ctx, r *rand.Rand, id string, T int) {
 			c.Count("batches_with_overlap", 1)
 		}
 		c.Count("unbound_to_bound_transitions_observed", int(transitions))
+		c.Count("uses_of_macro_under_redefinition", int(atomic.LoadInt64(&macroUses)))
 		c.Distinct("shapes", texts[0])
 		select {
 		case m := <-torn:
